@@ -13,23 +13,31 @@ package phantoms
 import (
 	"bytes"
 	crand "crypto/rand"
+	"crypto/sha256"
 	"encoding/binary"
 	"encoding/hex"
 	"errors"
 	"fmt"
+	"go/ast"
+	"go/parser"
+	"go/token"
 	"math/big"
 	mrand "math/rand"
 	"net"
 	"os"
+	"sort"
 	"strconv"
 	"strings"
 	"sync"
 	"testing"
 
+	wr "github.com/mroth/weightedrand"
 	v0 "github.com/refraction-networking/conjure/internal/compatability/v0"
 	v1 "github.com/refraction-networking/conjure/internal/compatability/v1"
 	"github.com/refraction-networking/conjure/internal/vlib"
+	"github.com/refraction-networking/conjure/pkg/core"
 	pb "github.com/refraction-networking/conjure/proto"
+	"golang.org/x/crypto/hkdf"
 )
 
 // ------------------------------------------------------------------------------------------------
@@ -456,10 +464,112 @@ func c14Oracle(c *c14Case, r c14Res) (sig, what string) {
 	if !inside {
 		return "C14:outside-subnets", fmt.Sprintf("%v is in no configured subnet of its family in generation %d", ip, c.gen)
 	}
+	// "that subnet": the phantom is taken from the subnet set that the published weighted choice of
+	// this library version picks for the seed (recomputed here, independently of the code under
+	// test).  A containing subnet of *another* set that happens to allow port randomisation does not
+	// make the flag right: the set the phantom was selected from must allow it.
+	if pg, ok := c14PickedGroup(c, gen); ok {
+		in := false
+		for _, s := range pg.subnets {
+			if _, n, err := net.ParseCIDR(s); err == nil && c14NetContains(n, ip) {
+				in = true
+			}
+		}
+		if in {
+			rpAllowed = pg.rp
+		}
+	}
 	if r.hasRP && r.rp && !rpAllowed {
-		return "C14:randport-not-allowed", fmt.Sprintf("%v grants port randomisation, no containing subnet allows it", ip)
+		return "C14:randport-not-allowed", fmt.Sprintf("%v grants port randomisation, the subnet set it was selected from does not allow it", ip)
+	}
+	if c.v6 && ip.To4() != nil && !c14MappedConfigured(gen) {
+		return "C14:wrong-family", fmt.Sprintf("IPv6 requested, got the IPv4-mapped address %v although no configured IPv6 subnet reaches into ::ffff:0:0/96", ip)
 	}
 	return "", ""
+}
+
+// c14MappedConfigured: some configured IPv6 subnet of the generation intersects ::ffff:0:0/96 (then
+// 16-byte addresses that Go treats as IPv4 are members of a configured IPv6 subnet: the operator
+// asked for them).
+func c14MappedConfigured(gen *c14Gen) bool {
+	lo := new(big.Int).Lsh(big.NewInt(0xffff), 32)
+	hi := new(big.Int).Lsh(big.NewInt(0x10000), 32)
+	for _, g := range gen.groups {
+		for _, s := range g.subnets {
+			_, n, err := net.ParseCIDR(s)
+			if err != nil || n.IP.To4() != nil {
+				continue
+			}
+			ones, bits := n.Mask.Size()
+			var base, end big.Int
+			base.SetBytes(n.IP.To16())
+			end.Add(&base, new(big.Int).Lsh(big.NewInt(1), uint(bits-ones)))
+			if base.Cmp(hi) < 0 && end.Cmp(lo) > 0 {
+				return true
+			}
+		}
+	}
+	return false
+}
+
+// c14PickedGroup recomputes, from the published algorithms and independently of pkg/phantoms, which
+// weighted subnet set a selection takes its phantom from:
+//   - library versions >= 2: sets whose subnet list is not nil, sorted by ascending weight (stable),
+//     r = rand.Int(HKDF-SHA256(seed, info "phantom-select-subnet"), total weight), subtract the weights
+//     until r < 0;
+//   - versions 0/1: github.com/mroth/weightedrand over all sets with a math/rand generator seeded by
+//     Varint(seed).
+//
+// ok = false when the choice cannot be made (no weight, unusable seed, reader exhausted): selection
+// then fails and there is no flag to judge.
+func c14PickedGroup(c *c14Case, gen *c14Gen) (pg *c14Group, ok bool) {
+	if gen == nil || gen.nilCfg || gen.groupsNil || len(gen.groups) > 11 {
+		return nil, false
+	}
+	defer func() {
+		if recover() != nil {
+			pg, ok = nil, false
+		}
+	}()
+	if c.ver >= 2 {
+		var idx []int
+		tot := int64(0)
+		for i, g := range gen.groups {
+			if !g.nilSubs {
+				idx = append(idx, i)
+				tot += int64(g.weight)
+			}
+		}
+		if tot <= 0 {
+			return nil, false
+		}
+		sort.SliceStable(idx, func(a, b int) bool { return gen.groups[idx[a]].weight < gen.groups[idx[b]].weight })
+		rnd, err := crand.Int(hkdf.New(sha256.New, c.seed, nil, []byte("phantom-select-subnet")), big.NewInt(tot))
+		if err != nil {
+			return nil, false
+		}
+		v := rnd.Int64()
+		for _, i := range idx {
+			v -= int64(gen.groups[i].weight)
+			if v < 0 {
+				return &gen.groups[i], true
+			}
+		}
+		return nil, false
+	}
+	seedInt, n := binary.Varint(c.seed)
+	if n == 0 {
+		return nil, false
+	}
+	choices := make([]wr.Choice, 0, len(gen.groups))
+	for i := range gen.groups {
+		choices = append(choices, wr.Choice{Item: i, Weight: uint(gen.groups[i].weight)})
+	}
+	ch, err := wr.NewChooser(choices...)
+	if err != nil {
+		return nil, false
+	}
+	return &gen.groups[ch.PickSource(mrand.New(mrand.NewSource(seedInt))).(int)], true
 }
 
 // c14NetContains: ip (4 or 16 bytes) lies in the network n of the same family, by plain arithmetic on
@@ -507,9 +617,43 @@ func (c *c14Case) modelLine(t testing.TB) string {
 	return fmt.Sprintf("phantom|%s|%s|%d|%d|%s|%s|%s", c.side, vlib.Hex(c.seed), c.gen, c.ver, vlib.B(c.v6), cfgText, draws)
 }
 
+// c14Hist is a long-lived selector of one configuration together with the selections it has served.
+type c14Hist struct {
+	cfg  *c14Cfg
+	sel  *PhantomIPSelector
+	done []c14Case
+}
+
+func c14NewHist(cfg *c14Cfg) *c14Hist { return &c14Hist{cfg: cfg, sel: cfg.selector()} }
+
+func c14SeqEntry(c *c14Case) string {
+	return fmt.Sprintf("%s,%d,%d,%s", vlib.Hex(c.seed), c.gen, c.ver, vlib.B(c.v6))
+}
+
+// c14SeqReplay: a configuration and the selections to make, in order, on one selector
+func c14SeqReplay(cfg *c14Cfg, cs []c14Case) string {
+	var es []string
+	for i := range cs {
+		es = append(es, c14SeqEntry(&cs[i]))
+	}
+	return fmt.Sprintf("C14SEQ|%s|%s", cfg.text(), strings.Join(es, ";"))
+}
+
+// sameAnswer compares two answers of entry points that must agree; the text of an error the harness
+// has no name for is not compared (an error is an error).
+func c14Same(a, b c14Res) bool {
+	an, bn := a.String(), b.String()
+	if a.kind == "err" && b.kind == "err" && strings.HasPrefix(a.err, "other:") && strings.HasPrefix(b.err, "other:") {
+		return true
+	}
+	return an == bn
+}
+
 // c14Run runs one (seed, generation, version, family, configuration) through every applicable entry
-// point, records the correspondence cases and evaluates the oracle.
-func c14Run(t testing.TB, out *vlib.Out, c c14Case) {
+// point, records the correspondence cases and evaluates the oracle.  hist (may be nil) is a selector
+// that has already served other selections of the same configuration: its answer must be the one a
+// selector that has never been used gives.
+func c14Run(t testing.TB, out *vlib.Out, c c14Case, hist *c14Hist) {
 	sel := c.cfg.selector()
 	c.side = "station"
 	r := c14Station(sel, &c)
@@ -523,6 +667,35 @@ func c14Run(t testing.TB, out *vlib.Out, c c14Case) {
 	out.Checked()
 	if r2, r3 := c14Station(sel, &c), c14Station(c.cfg.selector(), &c); r2.String() != r.String() || r3.String() != r.String() {
 		c14Fail(out, "C14:repeat-differs", fmt.Sprintf("repeating the selection changed the result: %s / %s / %s", r, r2, r3), c.replay())
+	}
+	// no hidden state: a selector that served other seeds / generations / versions / families before
+	if hist != nil {
+		out.Checked()
+		rh := c14Station(hist.sel, &c)
+		if rh.String() != r.String() {
+			// look for a single earlier selection that is enough to change the answer
+			rep := ""
+			for i := range hist.done {
+				s2 := hist.cfg.selector()
+				c14Station(s2, &hist.done[i])
+				if c14Station(s2, &c).String() != r.String() {
+					rep = c14SeqReplay(hist.cfg, []c14Case{hist.done[i], c})
+					break
+				}
+			}
+			if rep == "" {
+				h := hist.done
+				if len(h) > 400 {
+					h = h[len(h)-400:]
+				}
+				rep = c14SeqReplay(hist.cfg, append(append([]c14Case{}, h...), c))
+			}
+			c14Fail(out, "C14:result-depends-on-earlier-selections",
+				fmt.Sprintf("a selector that has served %d earlier selections answers %s, an unused selector %s", len(hist.done), rh, r), rep)
+		} else if sig, what := c14Oracle(&c, rh); sig != "" {
+			c14Fail(out, sig, what, c.replay())
+		}
+		hist.done = append(hist.done, c)
 	}
 	gen := c.cfg.gens[c.gen]
 	if gen == nil || gen.nilCfg {
@@ -538,7 +711,7 @@ func c14Run(t testing.TB, out *vlib.Out, c c14Case) {
 			c14Fail(out, sig, "client entry SelectPhantom: "+what, c.replay())
 		}
 		out.Checked()
-		if rc.String() != r.String() {
+		if !c14Same(rc, r) {
 			c14Fail(out, "C14:station-client-differ", fmt.Sprintf("Select gives %s, SelectPhantom gives %s", r, rc), c.replay())
 		}
 		return
@@ -552,6 +725,53 @@ func c14Run(t testing.TB, out *vlib.Out, c c14Case) {
 		out.Checked()
 		if r.kind != "ok" || !bytes.Equal(r.ip, rc.ip) {
 			c14Fail(out, "C14:station-compat-differ", fmt.Sprintf("frozen v%d client derives %v, station gives %s", c.ver, rc.ip, r), c.replay())
+		}
+	}
+}
+
+// c14CrossGeneration: the same CIDR string written in two generations, or in two weighted sets of one
+// generation, with different RandomizeDstPort settings; selections for one are made before selections
+// for the other, in both orders, in this one process.  The flag of every result must be the one of
+// the set the phantom was taken from in the *requested* generation, whatever was selected before.
+// Every sub-case uses CIDR strings that nothing else in this process uses, so a replay
+// (`C14SEQ|…`) needs nothing but its own lines.
+func c14CrossGeneration(t testing.TB, out *vlib.Out, r *vlib.Rand) {
+	k := 0
+	fresh := func() (string, string) {
+		k++
+		return fmt.Sprintf("10.%d.%d.0/24", 64+k/256, k%256), fmt.Sprintf("2001:db8:%x::/64", 0x4000+k)
+	}
+	for _, firstRP := range []bool{false, true} {
+		for ver := uint(0); ver <= 4; ver++ {
+			for _, v6 := range []bool{false, true} {
+				for shape := 0; shape < 2; shape++ {
+					n4, n6 := fresh()
+					var cfg *c14Cfg
+					var gens []uint
+					if shape == 0 { // two generations
+						cfg = &c14Cfg{order: []uint{1, 957}, gens: map[uint]*c14Gen{
+							1:   {groups: []c14Group{{weight: 9, rp: firstRP, subnets: []string{n4, n6}}}},
+							957: {groups: []c14Group{{weight: 9, rp: !firstRP, subnets: []string{n4, n6}}}}}}
+						gens = []uint{1, 957, 1}
+					} else { // two sets of one generation, equal weights: both are picked by some seeds
+						cfg = &c14Cfg{order: []uint{3}, gens: map[uint]*c14Gen{
+							3: {groups: []c14Group{{weight: 1, rp: firstRP, subnets: []string{n4, n6}}, {weight: 1, rp: !firstRP, subnets: []string{n4, n6}}}}}}
+						gens = []uint{3, 3, 3, 3, 3, 3, 3, 3}
+					}
+					sel := cfg.selector()
+					var seq []c14Case
+					for _, g := range gens {
+						c := c14Case{side: "station", seed: r.Bytes(16), gen: g, ver: ver, v6: v6, cfg: cfg}
+						seq = append(seq, c)
+						res := c14Station(sel, &c)
+						out.Checked()
+						out.Count("cross-generation:" + res.kind)
+						if sig, what := c14Oracle(&c, res); sig != "" {
+							c14Fail(out, sig, fmt.Sprintf("after %d earlier selection(s) on a configuration that lists the same CIDR with another setting: %s", len(seq)-1, what), c14SeqReplay(cfg, seq))
+						}
+					}
+				}
+			}
 		}
 	}
 }
@@ -676,6 +896,17 @@ func c14RandCfg(r *vlib.Rand) *c14Cfg {
 	return c
 }
 
+// library versions: 0-4 exist; later ones (and nonsense values) take the newest path
+func c14RandVer(r *vlib.Rand) uint {
+	switch {
+	case r.Chance(1, 25):
+		return uint(5 + r.Intn(5))
+	case r.Chance(1, 100):
+		return []uint{255, 65536, 4294967295}[r.Intn(3)]
+	}
+	return uint(r.Intn(5))
+}
+
 func c14RandSeed(r *vlib.Rand) []byte {
 	switch {
 	case r.Chance(1, 50):
@@ -722,23 +953,30 @@ func c14Corpus() []*c14Cfg {
 	return []*c14Cfg{
 		mk("1=9,0,0,192.122.190.0/24+2001:48a8:687f:1::/64!1,0,0,141.219.0.0/16+35.8.0.0/16"),
 		mk("1=9,1,0,192.122.190.0/24+10.0.0.0/31+2001:48a8:687f:1::/64!1,0,0,141.219.0.0/16+35.8.0.0/16;2=1,1,0,2002::/64"),
-		mk("1=1,0,0,0.1.2.0/24+64:ff9b::/96"),                         // leading-zero networks
-		mk("1=1,1,0,0.0.0.0/0+::/0"),                                  // everything
-		mk("1=1,0,0,0.0.0.0/32+::/128"),                               // the zero address only
-		mk("1=1,0,0,10.0.0.7/32+2001:db8::1/128"),                     // one-address subnets
-		mk("1=1,0,0,10.0.0.7/32+10.0.0.8/32+10.0.0.9/32"),             // several one-address subnets
-		mk("1=0,0,0,10.1.0.0/30+2001:db8::/126"),                      // zero weight
-		mk("1=0,0,0,10.1.0.0/30!0,1,0,10.2.0.0/30+2001:db8::/126"),    // all weights zero
+		mk("1=1,0,0,0.1.2.0/24+64:ff9b::/96"),                                                         // leading-zero networks
+		mk("1=1,1,0,0.0.0.0/0+::/0"),                                                                  // everything
+		mk("1=1,0,0,0.0.0.0/32+::/128"),                                                               // the zero address only
+		mk("1=1,0,0,10.0.0.7/32+2001:db8::1/128"),                                                     // one-address subnets
+		mk("1=1,0,0,10.0.0.7/32+10.0.0.8/32+10.0.0.9/32"),                                             // several one-address subnets
+		mk("1=0,0,0,10.1.0.0/30+2001:db8::/126"),                                                      // zero weight
+		mk("1=0,0,0,10.1.0.0/30!0,1,0,10.2.0.0/30+2001:db8::/126"),                                    // all weights zero
 		mk("1=5,0,0,10.1.0.0/30+2001:db8::/126!5,1,0,10.2.0.0/30+2001:db8:1::/126!5,0,0,10.3.0.0/30"), // equal weights
-		mk("1=1,0,0,10.1.0.0/29+10.1.0.0/30+10.1.0.0/29!1,1,0,10.1.0.4/30"), // overlapping / duplicate, flags differ
-		mk("1=1,0,1,-!3,0,0,10.1.0.0/30+2001:db8::/126"),              // a group with nil subnets
-		mk("1=1,0,0,-!3,0,0,10.1.0.0/30"),                             // a group with an empty list
-		mk("1=1,0,0,bogus+10.1.0.0/30"),                               // unparsable entry
-		mk("1=1,0,0,::ffff:1.2.3.0/120+::ffff:9.9.9.9/128+2001:db8::/126"), // IPv4-mapped notation
+		mk("1=1,0,0,10.1.0.0/29+10.1.0.0/30+10.1.0.0/29!1,1,0,10.1.0.4/30"),                           // overlapping / duplicate, flags differ
+		mk("1=1,0,1,-!3,0,0,10.1.0.0/30+2001:db8::/126"),                                              // a group with nil subnets
+		mk("1=1,0,0,-!3,0,0,10.1.0.0/30"),                                                             // a group with an empty list
+		mk("1=1,0,0,bogus+10.1.0.0/30"),                                                               // unparsable entry
+		mk("1=1,0,0,::ffff:1.2.3.0/120+::ffff:9.9.9.9/128+2001:db8::/126"),                            // IPv4-mapped notation
 		mk("1=E"), mk("1=N"), mk("1=nil"), mk("-"),
 		mk("1=4294967295,0,0,10.1.0.0/30!4294967295,1,0,10.2.0.0/30+2001:db8::/126"), // large weights
-		mk("1=1,0,0,255.255.255.252/30+ffff:ffff:ffff:ffff:ffff:ffff:ffff:fffc/126"),    // top of the address space
+		mk("1=1,0,0,255.255.255.252/30+ffff:ffff:ffff:ffff:ffff:ffff:ffff:fffc/126"), // top of the address space
 		mk("1=2,1,0,10.1.0.0/30;7=1,0,0,10.7.0.0/30;1000=1,0,0,2001:db8:7::/126"),
+		// subnets written with host bits set (net.ParseCIDR masks them): phantoms must stay inside the network
+		mk("1=1,0,0,192.122.190.77/24+2001:db8:0:1::a5/120!1,1,0,10.9.8.255/30+2001:db8::ffff/112"),
+		mk("1=1,1,0,255.255.255.255/24+ffff:ffff:ffff:ffff:ffff:ffff:ffff:ffff/120"), // host bits at the top of the address space
+		// the same CIDRs in two generations / two sets with different port-randomisation settings (as in the checked-in
+		// phantom_subnets.toml: generations 1 and 957)
+		mk("1=9,0,0,192.122.190.0/24+2001:48a8:687f:1::/64!1,0,0,141.219.0.0/16+35.8.0.0/16;957=9,1,0,192.122.190.0/24+2001:48a8:687f:1::/64!1,1,0,141.219.0.0/16+35.8.0.0/16"),
+		mk("5=1,1,0,10.5.0.0/28+2001:db8:5::/124;6=1,0,0,10.5.0.0/28+2001:db8:5::/124;7=1,0,0,10.5.0.0/28+2001:db8:5::/124!1,1,0,10.5.0.0/28+2001:db8:5::/124"),
 	}
 }
 
@@ -753,7 +991,12 @@ func TestVerifC14(t *testing.T) {
 	}
 	r := vlib.NewRand("C14")
 
-	// 1. corpus: every tricky configuration × versions 0–4 × both families × several seeds
+	// 0. before anything else has been selected in this process: CIDRs shared between generations / sets
+	c14CrossGeneration(t, out, r)
+
+	// 1. corpus: every tricky configuration × versions 0–5 and 2^32-1 × both families × several seeds.  One
+	// long-lived selector per configuration serves the whole loop (the same seeds under every generation,
+	// version and family) next to the unused selector each case gets.
 	seeds := [][]byte{make([]byte, 16), bytes.Repeat([]byte{0xff}, 16), {}, {1}}
 	for i := 0; i < 6; i++ {
 		seeds = append(seeds, c14RandSeed(r))
@@ -761,11 +1004,12 @@ func TestVerifC14(t *testing.T) {
 	for _, cfg := range c14Corpus() {
 		gens := append([]uint{}, cfg.order...)
 		gens = append(gens, 99) // an unknown generation
+		hist := c14NewHist(cfg)
 		for _, g := range gens {
-			for ver := uint(0); ver <= 4; ver++ {
+			for _, ver := range []uint{0, 1, 2, 3, 4, 5, 4294967295} {
 				for _, v6 := range []bool{false, true} {
 					for _, s := range seeds {
-						c14Run(t, out, c14Case{seed: s, gen: g, ver: ver, v6: v6, cfg: cfg})
+						c14Run(t, out, c14Case{seed: s, gen: g, ver: ver, v6: v6, cfg: cfg}, hist)
 					}
 				}
 			}
@@ -783,13 +1027,20 @@ func TestVerifC14(t *testing.T) {
 	n := vlib.Budget(12000, 150000)
 	for i := 0; i < n; i++ {
 		cfg := c14RandCfg(r)
+		hist := c14NewHist(cfg)
 		k := 1 + r.Intn(4)
+		var last []byte
 		for j := 0; j < k; j++ {
 			g := uint(99)
 			if len(cfg.order) > 0 && !r.Chance(1, 30) {
 				g = cfg.order[r.Intn(len(cfg.order))]
 			}
-			c14Run(t, out, c14Case{seed: c14RandSeed(r), gen: g, ver: uint(r.Intn(5)), v6: r.Bool(), cfg: cfg})
+			seed := c14RandSeed(r)
+			if last != nil && r.Chance(1, 3) {
+				seed = last // the same seed under another generation / version / family
+			}
+			last = seed
+			c14Run(t, out, c14Case{seed: seed, gen: g, ver: c14RandVer(r), v6: r.Bool(), cfg: cfg}, hist)
 		}
 	}
 
@@ -938,44 +1189,100 @@ func c14Primitives(t *testing.T, out *vlib.Out, r *vlib.Rand) {
 	}
 }
 
-// c14Concurrent: the jobs are first run serially, then by W goroutines at once on the same selector.
+// c14ConcCfg: the configuration of the concurrent part — several weighted sets per generation (so that
+// the legacy weighted choice has more than one outcome), the same CIDRs in generations 1 and 957 with
+// different port-randomisation settings.
+func c14ConcCfg() *c14Cfg {
+	c, err := c14ParseCfg("1=9,1,0,192.122.190.0/24+10.0.0.0/31+2001:48a8:687f:1::/64!1,0,0,141.219.0.0/16+35.8.0.0/16!3,1,0,10.66.0.0/16+2001:db8:66::/64;" +
+		"2=1,1,0,2002::/64!1,0,0,2002:1::/64+10.2.0.0/24;" +
+		"957=9,0,0,192.122.190.0/24+10.0.0.0/31+2001:48a8:687f:1::/64!1,1,0,141.219.0.0/16+35.8.0.0/16!3,0,0,10.66.0.0/16+2001:db8:66::/64")
+	if err != nil {
+		panic(err)
+	}
+	return c
+}
+
+type c14Job struct {
+	c    c14Case
+	want string
+}
+
+// c14ConcJobs: every seed is used by two jobs that differ in generation, version or family; the
+// expected answer of a job is the one an unused selector gives when nothing else runs.
+func c14ConcJobs(out *vlib.Out, r *vlib.Rand, cfg *c14Cfg, n int) []c14Job {
+	gens := []uint{1, 2, 957}
+	js := make([]c14Job, 0, n)
+	for len(js) < n {
+		seed := r.Bytes(16)
+		a := c14Case{side: "station", seed: seed, gen: gens[r.Intn(3)], ver: uint(r.Intn(5)), v6: r.Bool(), cfg: cfg}
+		b := a
+		for b.gen == a.gen && b.ver == a.ver && b.v6 == a.v6 {
+			b.gen, b.ver, b.v6 = gens[r.Intn(3)], uint(r.Intn(5)), r.Bool()
+		}
+		for _, c := range []c14Case{a, b} {
+			c := c
+			res := c14Station(cfg.selector(), &c)
+			if out != nil {
+				out.Checked()
+				if sig, what := c14Oracle(&c, res); sig != "" {
+					c14Fail(out, sig, what, c.replay())
+				}
+			}
+			js = append(js, c14Job{c: c, want: res.String()})
+		}
+	}
+	return js
+}
+
+// c14RunWorkers: `workers` goroutines select all jobs on the one selector `sel` at the same time.
+func c14RunWorkers(sel *PhantomIPSelector, js []c14Job, workers int) (bad int, first string) {
+	var wg sync.WaitGroup
+	var mu sync.Mutex
+	for w := 0; w < workers; w++ {
+		wg.Add(1)
+		go func(w int) {
+			defer wg.Done()
+			for i := range js {
+				j := &js[(i+w*37)%len(js)]
+				got := c14Station(sel, &j.c).String()
+				if got != j.want {
+					mu.Lock()
+					bad++
+					if first == "" {
+						first = fmt.Sprintf("seed %x gen %d version %d v6 %v: alone %s, concurrent %s", j.c.seed, j.c.gen, j.c.ver, j.c.v6, j.want, got)
+					}
+					mu.Unlock()
+				}
+			}
+		}(w)
+	}
+	wg.Wait()
+	return bad, first
+}
+
+// c14Concurrent: the jobs are first run one by one, each on an unused selector, then by W goroutines at
+// once on one long-lived selector.
 func c14Concurrent(t *testing.T, out *vlib.Out, r *vlib.Rand) {
-	cfg := c14Corpus()[1]
+	cfg := c14ConcCfg()
 	sel := cfg.selector()
 	jobs := vlib.Budget(600, 6000)
-	type job struct {
-		c    c14Case
-		want string
-	}
-	js := make([]job, jobs)
-	for i := range js {
-		c := c14Case{side: "station", seed: r.Bytes(16), gen: uint(1 + r.Intn(2)), ver: uint(r.Intn(4)), v6: r.Bool(), cfg: cfg}
-		js[i] = job{c: c, want: c14Station(sel, &c).String()}
+	js := c14ConcJobs(out, r, cfg, jobs)
+	// the long-lived selector, still serial: every job in order
+	out.Checked()
+	if bad, first := c14RunWorkers(sel, js, 1); bad > 0 {
+		var seq []c14Case
+		for i := range js {
+			seq = append(seq, js[i].c)
+			if len(seq) >= 400 {
+				break
+			}
+		}
+		c14Fail(out, "C14:result-depends-on-earlier-selections",
+			fmt.Sprintf("%d of %d selections made one after the other on one selector differ from the unused selector's answer; first: %s", bad, len(js), first),
+			c14SeqReplay(cfg, seq))
 	}
 	for _, workers := range []int{2, 3, 4, 8, 16, 32} {
-		var wg sync.WaitGroup
-		var mu sync.Mutex
-		bad := 0
-		var first string
-		for w := 0; w < workers; w++ {
-			wg.Add(1)
-			go func(w int) {
-				defer wg.Done()
-				for i := range js {
-					j := &js[(i+w*37)%len(js)]
-					got := c14Station(sel, &j.c).String()
-					if got != j.want {
-						mu.Lock()
-						bad++
-						if first == "" {
-							first = fmt.Sprintf("seed %x gen %d version %d v6 %v: serial %s, concurrent %s", j.c.seed, j.c.gen, j.c.ver, j.c.v6, j.want, got)
-						}
-						mu.Unlock()
-					}
-				}
-			}(w)
-		}
-		wg.Wait()
+		bad, first := c14RunWorkers(sel, js, workers)
 		out.Checked()
 		out.Count(fmt.Sprintf("concurrent:%d-workers", workers))
 		if bad > 0 {
@@ -984,6 +1291,53 @@ func c14Concurrent(t *testing.T, out *vlib.Out, r *vlib.Rand) {
 				fmt.Sprintf("C14CONC|%d|%d|%s", workers, jobs, cfg.text()))
 		}
 	}
+}
+
+// TestVerifC14Race: concurrent selections on one selector under the Go race detector (plan entry with
+// "race_detector"): shared writes that do not change a result — a memo on the selector, an in-place
+// sort of the configured sets — are invisible to the comparison above.  The check turns every
+// `WARNING: DATA RACE` block into an oracle failure.
+func TestVerifC14Race(t *testing.T) {
+	out := vlib.Open("C14race")
+	defer out.Close()
+	r := vlib.NewRand("C14race")
+	cfg := c14ConcCfg()
+	js := c14ConcJobs(nil, r, cfg, vlib.Budget(160, 1200))
+	sel := cfg.selector()
+	for _, workers := range []int{2, 8, 24} {
+		bad, first := c14RunWorkers(sel, js, workers)
+		out.Checked()
+		out.Count(fmt.Sprintf("race:%d-workers", workers))
+		if bad > 0 {
+			c14Fail(out, "C14:concurrent-selection-differs",
+				fmt.Sprintf("%d of %d selections changed when %d selectors ran concurrently (race-detector build); first: %s", bad, workers*len(js), workers, first),
+				fmt.Sprintf("C14CONC|%d|%d|%s", workers, len(js), cfg.text()))
+		}
+	}
+	// the client entry point and the frozen clients next to the station selector, on shared protobuf objects
+	list := &pb.PhantomSubnetsList{WeightedSubnets: cfg.gens[1].pbGroups()}
+	var wg sync.WaitGroup
+	for w := 0; w < 8; w++ {
+		wg.Add(1)
+		go func(w int) {
+			defer wg.Done()
+			for i := range js {
+				j := &js[(i+w*53)%len(js)]
+				f := V4Only
+				if j.c.v6 {
+					f = V6Only
+				}
+				func() {
+					defer func() { _ = recover() }()
+					_, _ = SelectPhantom(j.c.seed, list, f, true)
+					_, _ = GetUnweightedSubnetList(list)
+				}()
+				c14Station(sel, &j.c)
+			}
+		}(w)
+	}
+	wg.Wait()
+	out.Checked()
 }
 
 // c14Replay re-runs replay lines (`C14CASE|…`, `C14OFFSET|…`, `C14CONC|…`) against the implementation.
@@ -1012,7 +1366,7 @@ func c14Replay(t *testing.T, out *vlib.Out, path string) {
 				t.Fatal(err)
 			}
 			c := c14Case{seed: seed, gen: uint(gen), ver: uint(ver), v6: f[5] == "1", cfg: cfg}
-			c14Run(t, out, c)
+			c14Run(t, out, c, nil)
 			c.side = "station"
 			fmt.Println("REPLAY case      :", line)
 			fmt.Println("REPLAY model-line:", c.modelLine(t))
@@ -1038,6 +1392,170 @@ func c14Replay(t *testing.T, out *vlib.Out, path string) {
 		case "C14CONC":
 			fmt.Println("REPLAY case      :", line)
 			c14Concurrent(t, out, vlib.NewRand("C14conc"))
+		case "C14SEQ":
+			// C14SEQ|<cfg>|<seed>,<gen>,<ver>,<v6>;…  — the selections are made in this order on one selector
+			if len(f) != 3 {
+				t.Fatalf("bad replay line %q", line)
+			}
+			cfg, err := c14ParseCfg(f[1])
+			if err != nil {
+				t.Fatal(err)
+			}
+			fmt.Println("REPLAY case      :", line)
+			sel := cfg.selector()
+			var seq []c14Case
+			for _, e := range strings.Split(f[2], ";") {
+				p := strings.Split(e, ",")
+				if len(p) != 4 {
+					t.Fatalf("bad replay entry %q", e)
+				}
+				seed := []byte{}
+				if p[0] != "-" {
+					if seed, err = hex.DecodeString(p[0]); err != nil {
+						t.Fatal(err)
+					}
+				}
+				gen, _ := strconv.ParseUint(p[1], 10, 32)
+				ver, _ := strconv.ParseUint(p[2], 10, 32)
+				c := c14Case{side: "station", seed: seed, gen: uint(gen), ver: uint(ver), v6: p[3] == "1", cfg: cfg}
+				seq = append(seq, c)
+				alone := c14Station(cfg.selector(), &c)
+				got := c14Station(sel, &c)
+				fmt.Printf("REPLAY step %-3d  : %s -> %s (unused selector: %s)\n", len(seq), e, got, alone)
+				out.Checked()
+				if sig, what := c14Oracle(&c, got); sig != "" {
+					c14Fail(out, sig, what, c14SeqReplay(cfg, seq))
+				}
+				out.Checked()
+				if got.String() != alone.String() {
+					c14Fail(out, "C14:result-depends-on-earlier-selections", fmt.Sprintf("step %d: the used selector answers %s, an unused selector %s", len(seq), got, alone), c14SeqReplay(cfg, seq))
+				}
+			}
 		}
 	}
+}
+
+// ------------------------------------------------------------------------------------------------
+// tie 1: facts about the source of pkg/phantoms that no single run can observe
+
+// c14GlobalRand: package-level functions of math/rand (and math/rand/v2) that read or re-seed the
+// process-global source.  New, NewSource, NewZipf (v2: New, NewPCG, NewChaCha8, NewZipf) create local state.
+var c14GlobalRand = map[string]bool{
+	"Seed": true, "Int": true, "Intn": true, "Int31": true, "Int31n": true, "Int63": true, "Int63n": true, "Uint32": true,
+	"Uint64": true, "Float32": true, "Float64": true, "NormFloat64": true, "ExpFloat64": true, "Perm": true, "Shuffle": true,
+	"Read": true, "IntN": true, "Int32": true, "Int32N": true, "Int64": true, "Int64N": true, "Uint32N": true, "Uint64N": true,
+	"UintN": true, "Uint": true, "N": true,
+}
+
+// TestVerifC14Gen writes CJ/Gen/C14Facts.lean: the version thresholds of the selector, and every call
+// in the non-test files of this package — outside init() — that goes to the process-global math/rand
+// source: package-level math/rand functions, and weightedrand's Chooser.Pick() (which draws from that
+// source; PickSource takes a generator).  `no_global_rand` (CJ.Props.C14) states that there are none:
+// "each selector owns its generator", the hypothesis of the concurrency theorems, is read off the code.
+func TestVerifC14Gen(t *testing.T) {
+	dir := os.Getenv("VERIF_OUT")
+	if dir == "" {
+		t.Skip("VERIF_OUT not set")
+	}
+	fset := token.NewFileSet()
+	pkgs, err := parser.ParseDir(fset, ".", func(fi os.FileInfo) bool {
+		return !strings.HasSuffix(fi.Name(), "_test.go") && !strings.HasPrefix(fi.Name(), "zz_verif")
+	}, 0)
+	if err != nil {
+		t.Fatal(err)
+	}
+	var calls []string
+	files := 0
+	for _, pkg := range pkgs {
+		var names []string
+		for name := range pkg.Files {
+			names = append(names, name)
+		}
+		sort.Strings(names)
+		for _, name := range names {
+			file := pkg.Files[name]
+			files++
+			randNames := map[string]bool{}
+			dotRand, hasWR := false, false
+			for _, im := range file.Imports {
+				path := strings.Trim(im.Path.Value, "\"`")
+				switch {
+				case path == "math/rand" || path == "math/rand/v2":
+					n := "rand"
+					if im.Name != nil {
+						n = im.Name.Name
+					}
+					if n == "." {
+						dotRand = true
+					} else if n != "_" {
+						randNames[n] = true
+					}
+				case strings.HasSuffix(path, "mroth/weightedrand") || strings.Contains(path, "mroth/weightedrand/"):
+					hasWR = true
+				}
+			}
+			for _, d := range file.Decls {
+				fn := "(package level)"
+				var body ast.Node = d
+				if fd, ok := d.(*ast.FuncDecl); ok {
+					fn = fd.Name.Name
+					if fd.Recv != nil && len(fd.Recv.List) == 1 {
+						fn = c14TypeName(fd.Recv.List[0].Type) + "." + fn
+					}
+					if fd.Recv == nil && fd.Name.Name == "init" {
+						continue // runs before any selection
+					}
+					if fd.Body == nil {
+						continue
+					}
+					body = fd.Body
+				}
+				ast.Inspect(body, func(n ast.Node) bool {
+					switch e := n.(type) {
+					case *ast.SelectorExpr:
+						// any mention (call or function value) of a global-source function
+						if id, ok := e.X.(*ast.Ident); ok && randNames[id.Name] && id.Obj == nil && c14GlobalRand[e.Sel.Name] {
+							calls = append(calls, fmt.Sprintf("(%q, %q, %q)", name, fn, "math/rand."+e.Sel.Name))
+						}
+					case *ast.CallExpr:
+						if se, ok := e.Fun.(*ast.SelectorExpr); ok && hasWR && se.Sel.Name == "Pick" && len(e.Args) == 0 {
+							calls = append(calls, fmt.Sprintf("(%q, %q, %q)", name, fn, "weightedrand.Chooser.Pick"))
+						}
+						if id, ok := e.Fun.(*ast.Ident); ok && dotRand && id.Obj == nil && c14GlobalRand[id.Name] {
+							calls = append(calls, fmt.Sprintf("(%q, %q, %q)", name, fn, "math/rand."+id.Name))
+						}
+					}
+					return true
+				})
+			}
+		}
+	}
+	if files < 4 {
+		t.Fatalf("only %d source files of pkg/phantoms were read", files)
+	}
+	var sb strings.Builder
+	sb.WriteString("/-! GENERATED by /verif/check (TestVerifC14Gen) from the code under test — do not edit.\n")
+	sb.WriteString("Facts about pkg/phantoms that the C14 theorems are stated about. -/\n")
+	sb.WriteString("namespace CJ.Gen.C14\n\n")
+	fmt.Fprintf(&sb, "def phantomSelectionMinGeneration : Nat := %d\n", core.PhantomSelectionMinGeneration)
+	fmt.Fprintf(&sb, "def phantomHkdfMinVersion : Nat := %d\n", core.PhantomHkdfMinVersion)
+	fmt.Fprintf(&sb, "/-- number of non-test source files of pkg/phantoms that were read -/\ndef sourceFiles : Nat := %d\n", files)
+	sb.WriteString("/-- (file, function, callee): uses of the process-global math/rand source outside init() -/\n")
+	fmt.Fprintf(&sb, "def globalRandCalls : List (String × String × String) := [%s]\n", strings.Join(calls, ", "))
+	sb.WriteString("\nend CJ.Gen.C14\n")
+	if err := os.WriteFile(dir+"/C14Facts.lean", []byte(sb.String()), 0o644); err != nil {
+		t.Fatal(err)
+	}
+}
+
+func c14TypeName(e ast.Expr) string {
+	switch x := e.(type) {
+	case *ast.StarExpr:
+		return c14TypeName(x.X)
+	case *ast.Ident:
+		return x.Name
+	case *ast.IndexExpr:
+		return c14TypeName(x.X)
+	}
+	return "?"
 }
